@@ -103,7 +103,7 @@ type fakeChainRpc struct {
 	calls     int
 }
 
-var errFake = errors.New("fake rpc: transient failure")
+var errFakeRpc = errors.New("fake rpc: transient failure")
 
 func (f *fakeChainRpc) GetBlockHeight() (uint64, error) {
 	f.mu.Lock()
@@ -112,12 +112,12 @@ func (f *fakeChainRpc) GetBlockHeight() (uint64, error) {
 	if f.kickArmed {
 		f.kickArmed = false
 		if f.kickErr {
-			return 0, errFake
+			return 0, errFakeRpc
 		}
 		return f.kick, nil
 	}
 	if f.v.HeightErr {
-		return 0, errFake
+		return 0, errFakeRpc
 	}
 	return f.v.Height, nil
 }
@@ -128,7 +128,7 @@ func (f *fakeChainRpc) GetTxOut(txid string, vout uint32) (*txwatcher.TxOutResp,
 	f.calls++
 	switch f.v.TxoKind {
 	case 0:
-		return nil, errFake
+		return nil, errFakeRpc
 	case 1:
 		return nil, nil
 	}
@@ -140,7 +140,7 @@ func (f *fakeChainRpc) GetBlockHash(height uint32) (string, error) {
 	defer f.mu.Unlock()
 	f.calls++
 	if f.v.HashErr {
-		return "", errFake
+		return "", errFakeRpc
 	}
 	id, ok := f.v.Hashes[height]
 	if !ok {
@@ -154,11 +154,11 @@ func (f *fakeChainRpc) GetRawtransactionWithBlockHash(txId string, blockHash str
 	defer f.mu.Unlock()
 	f.calls++
 	if f.v.RawErr || !strings.HasPrefix(blockHash, "h") {
-		return "", errFake
+		return "", errFakeRpc
 	}
 	id, err := strconv.ParseInt(blockHash[1:], 10, 64)
 	if err != nil {
-		return "", errFake
+		return "", errFakeRpc
 	}
 	tok, ok := f.v.Raws[id]
 	if !ok {
@@ -998,7 +998,7 @@ func (f *fakeElectrum) GetHistory(ctx context.Context, scripthash string) ([]*go
 	}
 	a := f.answers[i]
 	if a.HistErr {
-		return nil, errFake
+		return nil, errFakeRpc
 	}
 	out := []*goelectrum.GetMempoolResult{}
 	for _, e := range a.Hist {
@@ -1024,7 +1024,7 @@ func (f *fakeElectrum) GetRawTransaction(ctx context.Context, txHash string) (st
 	}
 	a := f.answers[i]
 	if a.RawErr {
-		return "", errFake
+		return "", errFakeRpc
 	}
 	if a.Raw == 0 {
 		return "", nil
@@ -1032,9 +1032,9 @@ func (f *fakeElectrum) GetRawTransaction(ctx context.Context, txHash string) (st
 	return "r" + strconv.FormatInt(a.Raw, 10), nil
 }
 func (f *fakeElectrum) BroadcastTransaction(ctx context.Context, rawTx string) (string, error) {
-	return "", errFake
+	return "", errFakeRpc
 }
-func (f *fakeElectrum) GetFee(ctx context.Context, target uint32) (float32, error) { return 0, errFake }
+func (f *fakeElectrum) GetFee(ctx context.Context, target uint32) (float32, error) { return 0, errFakeRpc }
 func (f *fakeElectrum) Ping(ctx context.Context) error                             { return nil }
 func (f *fakeElectrum) Reboot(ctx context.Context) error                           { return nil }
 
